@@ -20,7 +20,7 @@ GROUP_ENV = {'pure': {'NUMBA_DISABLE_JIT': '1'}, 'jit': {}}
 MIN_DECISIVE = {'quick': 100, 'thorough': 800}
 CASE_TIMEOUT = 900
 RULE = ('each case = (monitor, implementation, use_static, RNG sub-seed) evaluated at 6 random points (colatitude in (0.1,pi-0.1), '
-        'longitude, time, n in 1e-6..1e-4, spin/n in [-3,3] incl. exact commensurabilities j/2 (zero-frequency modes), e in [0,0.4], obliquity in [0,1.2]); limit/anchor cases use fixed small-parameter ladders; '
+        'longitude, time, n in 1e-6..1e-4, spin/n in [-3,3] incl. exact commensurabilities j/2 (zero-frequency modes) and spins 3e-14..2.5e-11 rad/s away from them (modes below the static cut-off), e in [0,0.4], obliquity in [0,1.2]); limit/anchor cases use fixed small-parameter ladders; '
         'non-trivial = all mode tuples finite and the potential scale non-zero; distinct by (monitor, implementation, static, sub-seed)')
 ASSUMPTIONS = ['orientation conventions of the exact oracle (pericentre and node on +x, prograde spin, orbit normal tilted by -I about x) were validated against the no-obliquity, medium-obliquity and synchronous variants',
                'truncation-order budgets: medium-e variants 80 e^4 (observed up to 40.4 e^4 at e=0.1), low-e variants 20 e^2, medium-obliquity variants 80 (e+I)^4 (relative to G M R^2/a^3)']
@@ -127,8 +127,13 @@ def rnd_point(rng, commens=True):
     ratio = float(rng.uniform(-3, 3))
     if commens and rng.random() < 0.3:
         ratio = float(rng.integers(-6, 7)) / 2.0        # exact spin-orbit commensurabilities: some mode frequencies are exactly zero (static terms)
+    o_ = float(n * ratio)
+    if commens and rng.random() < 0.2:
+        # close to, but not at, a commensurability (found by seed C14-i): mode frequencies of 6e-14..5e-11 rad/s, i.e. below the absolute cut-off (1e-10 rad/s) under
+        # which every implementation treats a mode as static, yet far above rounding; kept a factor 2 away from the cut-off itself
+        o_ = float(n * (float(rng.integers(-6, 7)) / 2.0) + (1 if rng.random() < 0.5 else -1) * 10 ** rng.uniform(-13.5, -10.6))
     return dict(th=float(rng.uniform(0.1, math.pi - 0.1)), ph=float(rng.uniform(0, 2 * math.pi)), t=float(rng.uniform(0, 30) / n), n=n,
-                o=float(n * ratio), e=float(rng.uniform(0, 0.4)), I=float(rng.uniform(0, 1.2)))
+                o=o_, e=float(rng.uniform(0, 0.4)), I=float(rng.uniform(0, 1.2)))
 
 
 def eval_case(c):
